@@ -231,9 +231,9 @@ def audit(pid):
         raise ToolError(f'audit failed:\n{out[-3000:]}')
     res = {}
     flat = re.sub(r'\s+', ' ', out)
-    for m in re.finditer(r"'([^']+)' depends on axioms: \[([^\]]*)\]", flat):
+    for m in re.finditer(r"'(\S+?)' depends on axioms: \[([^\]]*)\]", flat):
         res[m.group(1)] = [a.strip() for a in m.group(2).split(',') if a.strip()]
-    for m in re.finditer(r"'([^']+)' does not depend on any axioms", flat):
+    for m in re.finditer(r"'(\S+?)' does not depend on any axioms", flat):
         res[m.group(1)] = []
     missing = [t for t in thms if t not in res]
     if missing:
